@@ -419,7 +419,10 @@ func tokIdx(i *schema.Index, w *[]string) {
 	*w = append(*w, optTok(hp, pr.P), optTok(hc, cm.Text), optTok(ho, or.O))
 }
 
-func tokTable(t *schema.Table, w *[]string) {
+// tokTable writes the tokens of one table.  forCase: the model-input format (explicit index order,
+// then the AUTOINCREMENT columns and the inline UNIQUE constraints); else the canonical observation
+// format (indexes sorted by name, AUTOINCREMENT columns, no uniques).
+func tokTable(t *schema.Table, uniques [][]string, forCase bool, w *[]string) {
 	*w = append(*w, hx(t.Name), b01(hasAttr(t.Attrs, &sqlite.WithoutRowID{})), b01(hasAttr(t.Attrs, &sqlite.Strict{})), strconv.Itoa(len(t.Columns)))
 	for _, c := range t.Columns {
 		tokCol(t, c, w)
@@ -430,8 +433,12 @@ func tokTable(t *schema.Table, w *[]string) {
 		*w = append(*w, "P")
 		tokIdx(t.PrimaryKey, w)
 	}
-	*w = append(*w, strconv.Itoa(len(t.Indexes)))
-	for _, i := range t.Indexes {
+	idxs := append([]*schema.Index(nil), t.Indexes...)
+	if !forCase {
+		sort.SliceStable(idxs, func(i, j int) bool { return idxs[i].Name < idxs[j].Name })
+	}
+	*w = append(*w, strconv.Itoa(len(idxs)))
+	for _, i := range idxs {
 		tokIdx(i, w)
 	}
 	*w = append(*w, strconv.Itoa(len(t.ForeignKeys)))
@@ -456,13 +463,47 @@ func tokTable(t *schema.Table, w *[]string) {
 	for _, k := range ks {
 		*w = append(*w, hx(k.Name), hx(k.Expr))
 	}
+	var ai []string
+	for _, c := range t.Columns {
+		if hasAttr(c.Attrs, &sqlite.AutoIncrement{}) {
+			ai = append(ai, c.Name)
+		}
+	}
+	*w = append(*w, strconv.Itoa(len(ai)))
+	for _, a := range ai {
+		*w = append(*w, hx(a))
+	}
+	if forCase {
+		*w = append(*w, strconv.Itoa(len(uniques)))
+		for _, u := range uniques {
+			*w = append(*w, strconv.Itoa(len(u)))
+			for _, c := range u {
+				*w = append(*w, hx(c))
+			}
+		}
+	}
 }
 
-func tokSchema(s *schema.Schema) string {
+// tokCase: a schema as model input (name, tables in order, each with autoinc + uniques of the spec).
+func tokCase(s *schema.Schema, spec Schema) string {
 	w := []string{hx(s.Name), strconv.Itoa(len(s.Tables))}
-	for _, t := range s.Tables {
-		tokTable(t, &w)
+	for i, t := range s.Tables {
+		var u [][]string
+		if i < len(spec.Tables) {
+			u = spec.Tables[i].Uniques
+		}
+		tokTable(t, u, true, &w)
 	}
 	return strings.Join(w, " ")
 }
 
+// tokObs: the canonical text of an inspected schema (tables sorted by name).
+func tokObs(s *schema.Schema) string {
+	ts := append([]*schema.Table(nil), s.Tables...)
+	sort.SliceStable(ts, func(i, j int) bool { return ts[i].Name < ts[j].Name })
+	w := []string{strconv.Itoa(len(ts))}
+	for _, t := range ts {
+		tokTable(t, nil, false, &w)
+	}
+	return strings.Join(w, " ")
+}
